@@ -379,8 +379,10 @@ class DynScheduler(Scheduler):
     def yield_now(self):
         """called by the running worker inside a polling loop: let the next runnable worker run"""
         idx = self.me()
-        if idx is None or self.killing:
+        if idx is None:
             return
+        if self.killing:
+            raise Killed()      # the run is over: a worker that is still running unwinds at its next yield
         w = self.workers[idx]
         self.step += 1
         if self.step > self.max_steps:
@@ -391,6 +393,8 @@ class DynScheduler(Scheduler):
 
     def yield_point(self, idx, where):
         if self.killing:
+            if self.timed_out:
+                raise Killed()  # abandoned run: a worker that is still running must not spin on
             return
         self.step += 1
         w = self.workers[idx]
